@@ -100,7 +100,7 @@ where
                 LTermInner::Val(LValue::Number(w)),
             ) => {
                 /* All operands grounded. */
-                if u * v == *w {
+                if u + v == *w {
                     Ok(state)
                 } else {
                     Err(())
@@ -139,7 +139,8 @@ where
                     .extend(uwalk.clone(), LTerm::from(w - v));
                 state.run_constraints()
             }
-            (LTermInner::Var(_, _), LTermInner::Var(_, _), LTermInner::Val(LValue::Number(_)))
+            (LTermInner::Var(_, _), LTermInner::Var(_, _), LTermInner::Var(_, _))
+            | (LTermInner::Var(_, _), LTermInner::Var(_, _), LTermInner::Val(LValue::Number(_)))
             | (LTermInner::Var(_, _), LTermInner::Val(LValue::Number(_)), LTermInner::Var(_, _))
             | (LTermInner::Val(LValue::Number(_)), LTermInner::Var(_, _), LTermInner::Var(_, _)) => {
                 /* Not enough terms grounded to verify constraint. */
